@@ -301,3 +301,226 @@ class C12Gen:
 
 def gen_c12_program(rng, families=None):
     return C12Gen(rng, families).program()
+
+
+class C05Gen(C12Gen):
+    """Programs biased to the finite-type inference: guards over flags, variables assigned
+    several times per iteration (intermediate versions), conditions on variables reassigned in their
+    own branches (_old copies), initial values different from every assigned value, saturating
+    counters, value sets that outgrow the 25-value cap or the fixed-point budget."""
+
+    def finite_rhs(self, t):
+        """right-hand side for a variable meant to stay finite; `wild` updates (counters, doubling)
+        that make the value set outgrow the typer's caps are kept rare"""
+        rng = self.rng
+        fin = self.flags + self.smalls
+        if rng.random() < (0.0 if self.simple else 0.1):
+            r = rng.random()
+            if r < 0.4:
+                return [rng.choice(["add", "sub"]), var(t), num(rng.choice([1, 1, 2]))]   # counter: never converges
+            if r < 0.6:
+                return ["mul", num(rng.choice([2, Fraction(1, 2)])), var(t)]              # doubling / halving
+            if r < 0.8:
+                return ["add", var(rng.choice(fin)), var(rng.choice(fin))]
+            return ["mul", num(3), var(rng.choice(fin))]
+        if t in self.flags:
+            r = rng.random()
+            if r < 0.35:
+                return ["draw", "Bernoulli", [num(rng.choice(PROB_POOL))]]
+            if r < 0.5:
+                return ["sub", num(1), var(t)]
+            if r < 0.62:
+                return var(rng.choice(self.flags))
+            if r < 0.74:
+                return ["mul", var(rng.choice(self.flags)), var(rng.choice(self.flags))]
+            if r < 0.86:
+                return num(rng.choice([0, 1]))
+            return ["choice", [[num(rng.choice([0, 1])), fstr(rng.choice(PROB_POOL))], [num(rng.choice([0, 1])) if rng.random() < 0.7 else var(rng.choice(self.flags)), None]]]
+        r = rng.random()
+        if r < 0.2:
+            return self.draw(rng.choice(["Categorical", "DiscreteUniform"]), False)
+        if r < 0.4:
+            k = rng.choice([2, 2, 3])
+            probs = rand_probs(rng, k)
+            items = [[num(rng.choice([0, 1, 2, 3, -1, 5])) if rng.random() < 0.7 else var(rng.choice(fin)), fstr(probs[i])] for i in range(k)]
+            if rng.random() < 0.5:
+                items[-1][1] = None
+            return ["choice", items]
+        if r < 0.55:
+            return num(rng.choice([0, 1, 2, 3, 4, -1, Fraction(1, 2)]))
+        if r < 0.7:
+            return var(rng.choice(fin))
+        if r < 0.8:
+            return ["sub", num(rng.choice([1, 2, 3])), var(t)]                             # involution
+        if r < 0.9:
+            return ["mul", var(rng.choice(self.flags)), var(rng.choice(self.smalls if self.simple else fin))]
+        return ["mul", num(-1), var(t)]                                                    # sign flip
+
+    def fin_cond(self, depth=0):
+        rng = self.rng
+        fin = self.flags + self.smalls
+        r = rng.random()
+        if depth >= 1 or r < 0.7:
+            v = rng.choice(fin)
+            if v in self.flags and rng.random() < 0.7:
+                return ["cmp", var(v), "==", num(rng.choice([0, 1]))]
+            return ["cmp", var(v), rng.choice(["==", "<", ">", "<=", ">="]), num(rng.choice([0, 1, 2, 3]))]
+        if r < 0.82:
+            return ["and", self.fin_cond(1), self.fin_cond(1)]
+        if r < 0.94:
+            return ["or", self.fin_cond(1), self.fin_cond(1)]
+        return ["not", self.fin_cond(1)]
+
+    def stmt(self, depth, budget):
+        rng = self.rng
+        fin = self.flags + self.smalls
+        r = rng.random()
+        if depth < (1 if self.simple else 2) and budget[0] > 1 and r < 0.3:
+            nb = rng.choice([1, 1, 2, 3])
+            branches = [[self.fin_cond(), None] for _ in range(nb)]
+            for b in branches:
+                cv = sorted(self._cond_vars(b[0]))
+                blk = []
+                if cv and rng.random() < (0.6 if depth == 0 else 0.1):
+                    # reassign a variable of the branch condition inside the branch
+                    t = rng.choice(cv)
+                    blk.append(["assign", t, self.finite_rhs(t)])
+                    budget[0] -= 1
+                blk += self.block(depth + 1, budget, rng.choice([1, 1, 2]))
+                b[1] = blk
+            els = self.block(depth + 1, budget, rng.choice([1, 2])) if rng.random() < 0.5 else None
+            return ["if", branches, els]
+        if r < 0.38 and len(fin) >= 2:
+            vs = rng.sample(fin, 2)
+            budget[0] -= 1
+            if rng.random() < 0.5:
+                return ["simul", vs, [var(vs[1]), var(vs[0])]]
+            return ["simul", vs, [self.finite_rhs(vs[0]), self.finite_rhs(vs[1])]]
+        budget[0] -= 1
+        t = rng.choice(self.all)
+        if t in fin or (self.simple and rng.random() < 0.5):
+            if t not in fin:
+                t = rng.choice(fin)
+            if rng.random() < 0.15 and t in self.smalls:
+                # saturating counter
+                return ["if", [[["cmp", var(t), "<", num(rng.choice([2, 3, 4]))], [["assign", t, ["add", var(t), num(1)]]]]], None]
+            return ["assign", t, self.finite_rhs(t)]
+        rr = rng.random()
+        if rr < 0.35:
+            return ["assign", t, num(rng.choice([0, 1, 2, 3, 5, -2, Fraction(1, 2)]))]
+        if rr < 0.6:
+            return ["assign", t, [rng.choice(["add", "sub", "mul"]), var(t), rng.choice([num(1), num(2), var(rng.choice(fin))])]]
+        if rr < 0.75:
+            return ["assign", t, var(rng.choice(fin))]
+        if rr < 0.85:
+            return ["assign", t, self.draw(rng.choice(["Normal", "Uniform", "DistExp", "Beta", "Gamma", "Laplace"]), False)]
+        return ["assign", t, self.finite_rhs(rng.choice(fin))]
+
+    def _cond_vars(self, c):
+        from .past import expr_vars
+        t = c[0]
+        if t == "cmp":
+            return expr_vars(c[1]) | expr_vars(c[3])
+        if t in ("and", "or"):
+            return self._cond_vars(c[1]) | self._cond_vars(c[2])
+        if t == "not":
+            return self._cond_vars(c[1])
+        return set()
+
+    simple = False
+
+    def program(self):
+        rng = self.rng
+        self.simple = rng.random() < 0.55
+        nf = rng.choice([1, 2, 2])
+        ns = rng.choice([0, 1, 1, 2])
+        nr = rng.choice([0, 1, 1, 2])
+        names = ["f", "g", "h", "s", "k", "m", "x", "y", "z"]
+        self.flags = names[0:nf]
+        self.smalls = names[3:3 + ns]
+        self.reals = names[6:6 + nr]
+        self.all = self.flags + self.smalls + self.reals
+        init = []
+        for v in self.all:
+            if v in self.flags:
+                rhs = num(rng.choice([0, 1])) if rng.random() < 0.7 else ["draw", "Bernoulli", [num(rng.choice(PROB_POOL))]]
+            elif v in self.smalls:
+                r = rng.random()
+                if r < 0.5:
+                    rhs = num(rng.choice([0, 1, 2]))
+                elif r < 0.75:
+                    rhs = num(rng.choice([5, 7, -3, 9]))      # a value no assignment produces
+                else:
+                    rhs = self.draw(rng.choice(["Categorical", "DiscreteUniform"]), False)
+            else:
+                rhs = num(rng.choice([0, 1, 7, -3, Fraction(1, 2)]))
+            init.append(["assign", v, rhs])
+        r = rng.random()
+        if r < 0.2:
+            guard = ["true"]
+        elif r < 0.75:
+            guard = ["cmp", var(self.flags[0]), "==", num(rng.choice([0, 1]))]
+        else:
+            guard = self.fin_cond()
+        budget = [rng.choice([2, 3, 4, 5] if self.simple else [2, 3, 4, 5, 6, 8])]
+        body = self.block(0, budget, budget[0])
+        # bias: a second (and third) assignment to an already assigned variable at top level
+        for _ in range(rng.choice([0, 1, 1, 2])):
+            t = rng.choice(self.all)
+            pos = rng.randrange(len(body) + 1)
+            if t in self.reals:
+                e = [rng.choice(["add", "sub"]), var(t), num(rng.choice([1, 2]))] if rng.random() < 0.5 else num(rng.choice([0, 1, 3, 4]))
+            else:
+                e = self.finite_rhs(t) if rng.random() < 0.6 else num(rng.choice([0, 1]) if t in self.flags else rng.choice([0, 1, 3, 4]))
+            body.insert(pos, ["assign", t, e])
+        # a variable that occurs in a condition but is never assigned in the loop is a constant; Polar
+        # folds it into the condition and then refuses the program (C18 territory) — avoid that shape
+        from .past import assigned_vars
+        av = assigned_vars(body)
+        cvs = set(self._cond_vars(guard))
+        stack = list(body)
+        while stack:
+            st = stack.pop()
+            if st[0] == "if":
+                for c, br in st[1]:
+                    cvs |= self._cond_vars(c)
+                    stack += br
+                if st[2] is not None:
+                    stack += st[2]
+        for v in sorted(cvs - av):
+            body.append(["assign", v, self.finite_rhs(v)])
+        types = []
+        if rng.random() < 0.2:
+            v = rng.choice(self.flags)
+            if self._only_01(v, init, body):
+                types.append([v, "Finite", ["0", "1"]])
+        return {"types": types, "init": init, "guard": guard, "body": body}
+
+    def _only_01(self, v, init, body):
+        """declare a type only where it is certainly true: every assignment to v is a Bernoulli draw or 0/1 constant"""
+        ok = [True]
+
+        def visit(stmts):
+            for s in stmts:
+                if s[0] == "assign" and s[1] == v:
+                    r = s[2]
+                    if r[0] == "draw" and r[1] == "Bernoulli":
+                        continue
+                    if r[0] == "num" and r[1] in ("0", "1"):
+                        continue
+                    ok[0] = False
+                elif s[0] == "simul" and v in s[1]:
+                    ok[0] = False
+                elif s[0] == "if":
+                    for _, br in s[1]:
+                        visit(br)
+                    if s[2] is not None:
+                        visit(s[2])
+
+        visit(init)
+        visit(body)
+        return ok[0]
+
+
+def gen_c05_program(rng):
+    return C05Gen(rng).program()
